@@ -462,3 +462,137 @@ Proof.
   split; [exact W|]. split; [assumption|]. split; [assumption|].
   intros r. rewrite (S2 N0 r). unfold depth_after. apply run_evs_ext. intros [[|] b]; reflexivity.
 Qed.
+
+(* ---------- validate(): every program of the judgement is accepted, with the counts of its expansion ---------- *)
+Lemma loop_first_iteration f x a env body : forall vals s,
+  Top env s -> is_constant_name x = false -> int32 a = true -> forallb simple_op body = true ->
+  (forall v, In v vals -> int32 v = true /\ forallb (fun stm => op_ok env (inst x v stm)) body = true) ->
+  exists s',
+    (fix go (vals0 : list pyval) : M (list stmt) :=
+       match vals0 with
+       | [] => ret []
+       | v :: vals' =>
+           modify (fun s0 : st => push_scope (push_ctx CBlock s0));;;
+           d <- visit_classical_decl true (visit_call true [] (S f)) (TInt None) x (Some (ELit (VInt a)));;
+           s0 <- getst;;
+           match get_visible s0 x with
+           | Some x0 => cv <- assign_value (v_kind x0) (v_size x0) v;; modify (fun s1 : st => update_var s1 x (set_val x0 (VVScalar cv)))
+           | None => ret tt
+           end;;;
+           b0 <- visit_block (visit_stmt true [] (S f)) body;;
+           modify (fun s1 : st => pop_ctx (pop_scope s1));;;
+           ret []
+       end) (map VInt vals) s = Ok ([], s') /\ DE s s'.
+Proof.
+  intros vals s T Nc Ha Hs Hv. destruct vals as [|v vals].
+  - exists s. split; [reflexivity|apply DE_refl].
+  - destruct (Hv v (or_introl eq_refl)) as [Iv Okv].
+    cbn [map]. cbv beta iota.
+    rewrite (bind_eq _ _ s tt (push_scope (push_ctx CBlock s)) eq_refl).
+    rewrite (bind_eq _ _ _ [] (lpush s x a) (decl_loop_var true _ env x a s T Nc Ha)).
+    rewrite (bind_eq _ _ (lpush s x a) (lpush s x a) (lpush s x a) eq_refl).
+    rewrite (bind_eq _ _ (lpush s x a) tt (lpush s x v) (bind_loop_var env s x a v T Nc Iv)).
+    pose proof (Regs_lpush env s x v (T_regs _ _ T)) as R1. pose proof (InLoop_lpush env s x v T Nc) as L1.
+    destruct (body_block true f x v env body (lpush s x v) R1 L1 Hs Okv) as (s4 & E4 & D4 & S4).
+    unfold visit_block. rewrite (bind_eq _ _ (lpush s x v) [] s4 E4).
+    rewrite (bind_eq _ _ s4 tt (lpop s4) eq_refl).
+    exists (lpop s4). split; [reflexivity|]. exact (DE_lpop s x v s4 D4).
+Qed.
+
+Lemma loop_fix_validate f env s stm out : Top env s -> loop_ok env stm = Some out ->
+  exists s', visit_stmt true [] (S (S f)) stm s = Ok ([], s') /\ DE s s'.
+Proof.
+  intros T H. destruct stm; try discriminate H. cbn [loop_ok] in H.
+  destruct t; try discriminate H. destruct size; [discriminate H|].
+  destruct set as [start stop step|vals|]; try discriminate H.
+  destruct start as [[]|]; try discriminate H. destruct v; try discriminate H.
+  destruct stop as [[]|]; try discriminate H. destruct v; try discriminate H.
+  destruct step; [discriminate H|].
+  match type of H with (if ?c then _ else _) = _ => destruct c eqn:C; [|discriminate H] end. injection H as <-.
+  apply andb_true_iff in C as [C Hall]. apply andb_true_iff in C as [C Hs]. apply andb_true_iff in C as [C Hn].
+  apply andb_true_iff in C as [C Hb]. apply andb_true_iff in C as [Nc Ha]. apply negb_true_iff in Nc. apply Z.leb_le in Hn.
+  cbn [visit_stmt visit_stmt_body]. unfold visit_for.
+  rewrite (bind_eq _ _ s _ s (for_values_literal _ z z0 s Hn)).
+  destruct (loop_first_iteration f var z env body (zrange z z0) s T Nc Ha Hs) as (s' & E & D).
+  { intros v Hv. split.
+    - pose proof (zrange_in _ _ _ Hv) as R. unfold int32 in *. apply andb_true_iff in Ha as [A0 A1]. apply andb_true_iff in Hb as [B0 B1].
+      apply Z.leb_le in A0, A1, B0, B1. apply andb_true_iff. split; apply Z.leb_le; lia.
+    - eapply forallb_forall in Hall; eauto. }
+  exists s'. split; [exact E|exact D].
+Qed.
+
+Lemma gprogram_accepts fuel l : forall env G s q evs,
+  (ldepth l + 1 < fuel)%nat -> Top env s -> gates s = G -> gstack s = [] -> gexpand env G l = Some (q, evs) ->
+  exists s', concatMM (visit_stmt true [] fuel) l s = Ok ([], s') /\
+             num_qubits s' = num_qubits s + total_qubits q /\ num_clbits s' = num_clbits s + total_clbits q.
+Proof.
+  induction l as [|stm l IH]; intros env G s q evs Hf T HG Hst Hx; cbn [concatMM gexpand] in *.
+  - injection Hx as <- <-. exists s. split; [reflexivity|]. cbn. split; lia.
+  - destruct (gtop_step env G stm) as [[[[env' G'] out] ev1]|] eqn:Es; [|discriminate Hx].
+    destruct (gexpand env' G' l) as [[r evr]|] eqn:Er; [|discriminate Hx]. injection Hx as <- <-.
+    unfold ldepth in Hf. cbn [fold_right] in Hf. fold (ldepth l) in Hf.
+    assert (Hstep : exists s1, visit_stmt true [] fuel stm s = Ok ([], s1) /\ Top env' s1 /\
+                               num_qubits s1 = num_qubits s + total_qubits out /\ num_clbits s1 = num_clbits s + total_clbits out /\
+                               gates s1 = G' /\ gstack s1 = []).
+    { assert (HDE : forall s1, DE s s1 -> forallb (op_ok env) out = true -> env' = env -> G' = G ->
+                    Top env' s1 /\ num_qubits s1 = num_qubits s + total_qubits out /\ num_clbits s1 = num_clbits s + total_clbits out /\
+                    gates s1 = G' /\ gstack s1 = []).
+      { intros s1 D1 Ops -> ->. destruct (total_ops env out Ops) as [Tq Tc]. destruct (DE_counts _ _ D1) as [Nq Nc].
+        destruct (gframe_DE _ _ D1) as [Fg Fs]. split; [eapply Top_DE; eauto|]. split; [lia|]. split; [lia|]. split; congruence. }
+      assert (Hother : (match gcall_ok env G stm with
+                        | Some out => Some (env, G, out, evs_of out)
+                        | None => match ptop_step env stm with Some (env', out, evs) => Some (env', G, out, evs) | None => None end
+                        end) = Some (env', G', out, ev1) ->
+                       exists s1, visit_stmt true [] fuel stm s = Ok ([], s1) /\ Top env' s1 /\
+                               num_qubits s1 = num_qubits s + total_qubits out /\ num_clbits s1 = num_clbits s + total_clbits out /\
+                               gates s1 = G' /\ gstack s1 = []).
+      { intros Eo. destruct (gcall_ok env G stm) as [out'|] eqn:Ec.
+        - injection Eo as <- <- <- <-. destruct stm; try discriminate Ec. cbn [gcall_ok] in Ec.
+          destruct mods; [|discriminate Ec]. destruct (sget name G) as [gd|] eqn:Eg; [|discriminate Ec].
+          destruct (mapM lit_bit qubits) as [bs|] eqn:Eb; [|discriminate Ec]. destruct (mapM lit_num args) as [vs|] eqn:Ev; [|discriminate Ec].
+          match type of Ec with (if ?c then _ else _) = _ => destruct c eqn:C; [|discriminate Ec] end.
+          apply andb_true_iff in C as [C Hd]. apply andb_true_iff in C as [C Hin]. apply andb_true_iff in C as [Hv Hb].
+          apply Nat.eqb_eq in Hv, Hb. apply mapM_lit_bit in Eb as ->. apply mapM_lit_num in Ev as [-> Hn].
+          destruct fuel as [|[|f]]; try (cbn in Hf; lia).
+          destruct (custom_call_fix true f env s name gd vs bs out' (T_regs _ _ T)) as (s1 & E1 & D1 & S1); auto.
+          { now rewrite HG. } { now rewrite Hst. }
+          exists s1. split; [exact E1|]. apply HDE; auto. eapply call_out_ops; eauto.
+        - destruct (ptop_step env stm) as [[[env'' out''] evs'']|] eqn:Ep; [|discriminate Eo]. injection Eo as <- <- <- <-.
+          unfold ptop_step in Ep. destruct (loop_ok env stm) as [lo|] eqn:El.
+          + injection Ep as <- <- <-. destruct fuel as [|[|f]]; try lia.
+            destruct (loop_fix_validate f env s stm lo T El) as (s1 & E1 & D1).
+            exists s1. split; [exact E1|]. apply HDE; auto. eapply loop_ok_ops; eauto.
+          + destruct (top_step env stm) as [env3|] eqn:Et.
+            * injection Ep as <- <- <-.
+              destruct (top_fix true fuel stm env env3 s) as (s1 & E1 & T1 & Nq & Nc & S1); [lia|exact T|exact Et|].
+              destruct (top_frame true fuel stm env env3 s) as (o2 & s2 & E2 & [Fg Fs]); [lia|exact T|exact Et|].
+              rewrite E1 in E2. injection E2 as _ <-.
+              exists s1. split; [exact E1|]. split; [exact T1|]. unfold total_qubits, total_clbits. cbn [fold_right].
+              split; [lia|]. split; [lia|]. split; congruence.
+            * destruct (bcast_ok env stm) as [[bo be]|] eqn:Eb; [|discriminate Ep]. injection Ep as <- <- <-.
+              destruct fuel as [|f]; [lia|].
+              destruct (bcast_fix true f env s stm bo be (T_regs _ _ T) Eb) as (s1 & E1 & D1 & S1).
+              exists s1. split; [exact E1|]. apply HDE; auto. eapply bcast_ok_ops; eauto. }
+      destruct stm; try (apply Hother; exact Es).
+      cbn [gtop_step] in Es.
+      match type of Es with (if ?c then _ else _) = _ => destruct c eqn:C; [|discriminate Es] end. injection Es as <- <- <- <-.
+      apply andb_true_iff in C as [Hn Hb]. apply negb_true_iff in Hn. destruct (assoc name self_basis) eqn:Ea; [discriminate Hb|].
+      destruct fuel as [|f]; [lia|].
+      destruct (gdef_fix true f env s name params qubits body T) as (s1 & E1 & T1 & G1 & St1 & Nq & Nc & Hd); [now rewrite HG|exact Ea|].
+      exists s1. split; [exact E1|]. split; [exact T1|]. cbn. split; [lia|]. split; [lia|]. split; congruence. }
+    destruct Hstep as (s1 & E1 & T1 & Nq1 & Nc1 & G1 & St1).
+    destruct (IH env' G' s1 r evr) as (s2 & E2 & Nq2 & Nc2); [lia|exact T1|exact G1|exact St1|exact Er|].
+    rewrite (bind_eq _ _ s [] s1 E1), (bind_eq _ _ s1 [] s2 E2). exists s2. split; [reflexivity|].
+    destruct (total_app out r) as [Aq Ac]. split; lia.
+Qed.
+
+(* validate() accepts every program of the judgement; num_qubits / num_clbits are then the register sizes of the expansion *)
+Theorem programs_of_the_judgement_are_accepted_by_validate fuel p q evs :
+  gexpand env0 [] p = Some (q, evs) -> (ldepth p + 1 < fuel)%nat ->
+  exists o, run_visit false true [] fuel p = Ok o /\
+            num_qubits (o_state o) = total_qubits q /\ num_clbits (o_state o) = total_clbits q.
+Proof.
+  intros Hx Hf. unfold run_visit. cbn [andb].
+  destruct (gprogram_accepts fuel p env0 [] init_st q evs Hf Top_init eq_refl eq_refl Hx) as (s2 & E2 & Nq2 & Nc2).
+  rewrite E2. cbn in Nq2, Nc2. eexists. split; [reflexivity|]. cbn [o_state]. split; assumption.
+Qed.
